@@ -220,11 +220,16 @@ def run_bingham(key):
     amp = R.bingham_amplification(lam0)
     for a in (Us, lams, ys):
         a.setflags(write=False)
-    got, e = _call(lambda: d.ComplexBingham(covariance_eigenvectors=Us,
-                                            covariance_eigenvalues=lams).log_pdf(ys))
+    model = d.ComplexBingham(covariance_eigenvectors=Us, covariance_eigenvalues=lams)
+    got, e = _call(lambda: model.log_pdf(ys))
     if e is not None:
         return viol(f'ComplexBingham.log_pdf raised {e!r}')
     got = np.asarray(got)
+    again, e = _call(lambda: model.log_pdf(ys))
+    if e is not None or not np.array_equal(np.asarray(again), got, equal_nan=True):
+        return viol('ComplexBingham.log_pdf: a second call on the same model gives a different result')
+    if not np.array_equal(np.asarray(model.covariance_eigenvalues), lams):
+        return viol('ComplexBingham.log_pdf modified the stored eigenvalues')
     if got.shape != stack + (4,):
         return viol(f'shape {got.shape} != {stack + (4,)}')
     if amp > 1e6:
